@@ -205,6 +205,34 @@ MUTANTS += [
         (C, "                }).collect();\n\n                let class = ProgramObject::Class(slots?);", "                }).collect();\n                (**extends).compile_into(program, active_buffer, global_environment, current_frame, true)?;\n\n                let class = ProgramObject::Class(slots?);")]),
 ]
 
+MUTANTS += [
+    dict(id="M05", props=["C05"], what="eval_set_field pops host before value", edits=[(I,
+        "    let value_pointer = state.operand_stack.pop()?;\n    let object_pointer = state.operand_stack.pop()?;",
+        "    let object_pointer = state.operand_stack.pop()?;\n    let value_pointer = state.operand_stack.pop()?;")]),
+    dict(id="M44", props=["C05"], what="eval_set_global pops instead of peeking", edits=[(I,
+        "    let name = program_object.as_str()?.to_owned();\n    let pointer = *state.operand_stack.peek()?;",
+        "    let name = program_object.as_str()?.to_owned();\n    let pointer = state.operand_stack.pop()?;")]),
+    dict(id="M06", props=["C05", "C13"], what="pop_sequence without reverse", edits=[(ST,
+        "        result.map(|mut sequence| {sequence.reverse(); sequence})", "        result")]),
+    dict(id="M33", props=["C05", "C13"], what="eval_print uses pop_sequence", edits=[(I,
+        "state.operand_stack.pop_reverse_sequence(arguments.to_usize())?;", "state.operand_stack.pop_sequence(arguments.to_usize())?;")]),
+    dict(id="M5a", props=["C05"], what="return address taken before the bump (call returns to itself)", edits=[(I,
+        "    state.instruction_pointer.bump(program);\n    let frame = Frame::from(state.instruction_pointer.get(), veccat!(argument_pointers, local_pointers));",
+        "    let frame = Frame::from(state.instruction_pointer.get(), veccat!(argument_pointers, local_pointers));\n    state.instruction_pointer.bump(program);")]),
+    dict(id="M5b", props=["C05"], what="eval_array pops size before initializer", edits=[(I,
+        "    let initializer = state.operand_stack.pop()?;\n    let size = state.operand_stack.pop()?;",
+        "    let size = state.operand_stack.pop()?;\n    let initializer = state.operand_stack.pop()?;")]),
+    dict(id="M5c", props=["C05"], what="eval_object walks slots forwards while popping", edits=[(I,
+        "    for name in slots.into_iter().rev() {", "    for name in slots.into_iter() {")]),
+    dict(id="M5d", props=["C05"], what="dispatcher sends GetField to eval_set_field", edits=[(I,
+        "        OpCode::GetField { name } => eval_get_field(program, state, name),", "        OpCode::GetField { name } => eval_set_field(program, state, name),")]),
+    dict(id="M5e", props=["C05"], what="entry frame gets a return address", edits=[(ST,
+        "frame_stack.push(Frame::with_capacity(None, entry_locals.to_usize(), Pointer::Null));",
+        "frame_stack.push(Frame::with_capacity(Some(*entry_address), entry_locals.to_usize(), Pointer::Null));")]),
+    dict(id="M5f", props=["C05"], what="user method frame puts receiver last", edits=[(I,
+        "veccat!(vec![pointer], argument_pointers, local_pointers)", "veccat!(argument_pointers, vec![pointer], local_pointers)")]),
+]
+
 MUTANTS = [m for m in MUTANTS if m["edits"]]
 
 BENIGN = [
